@@ -172,7 +172,15 @@ func defaultGlobalConfigFiles() []string {
 		configFiles = append(configFiles, filepath.Join(xdgConfigHome, ConfigName))
 	}
 
-	return configFiles
+	// The same file can be named more than once (e.g. XDG_CONFIG_HOME=~/.config/please); read it once,
+	// at its highest-priority position, or its repeated options would be accumulated twice.
+	deduped := configFiles[:0:0]
+	for i, f := range configFiles {
+		if !slices.Contains(configFiles[i+1:], f) {
+			deduped = append(deduped, f)
+		}
+	}
+	return deduped
 }
 
 // defaultConfigFiles returns the set of default config file names.
